@@ -127,7 +127,7 @@ func c10Run(c c10Case, r *hx.Rec) error {
 		}
 		r.Label("verdict=%v", !fresh.Rejected())
 	}
-	if len(c.Calls) >= 2 && (nonEmptyParams || c.Kind == "mixed") {
+	if (len(c.Calls) >= 2 && (nonEmptyParams || c.Kind == "mixed")) || c.Kind == "surplus" {
 		r.Nontrivial()
 	}
 	return nil
@@ -200,12 +200,19 @@ func c10GenChain(t *rapid.T) hx.World {
 	if len(lay.Inspect) > 0 {
 		lay.Inspect[0].Run = append(lay.Inspect[0].Run, "log:@ROOT@/params.log:{TAG}")
 	}
+	// functionaries agree on materials and products, but each has its own by-products and command line
+	for i := range w.Links {
+		l := *w.Links[i].Meta.Link
+		l.ByProducts = hx.MObj{"return-value": hx.MVal{K: "i", I: 0}, "stdout": hx.MVal{K: "s", S: "built by " + w.Links[i].Sigs[0].Key + "\n"}, "stderr": hx.MVal{K: "s", S: ""}}
+		l.Command = []string{"make", "{TARGET}", "-j", fmt.Sprint(i + 1)}
+		w.Links[i].Meta = hx.MMeta{Link: &l}
+	}
 	return w
 }
 
 func c10Gen(t *rapid.T) c10Case {
 	c := c10Case{Repeats: hx.Pick(4, 16)}
-	c.Kind = rapid.SampledFrom([]string{"chain", "chain", "mixed", "direct"}).Draw(t, "kind")
+	c.Kind = rapid.SampledFrom([]string{"chain", "chain", "mixed", "direct", "surplus"}).Draw(t, "kind")
 	switch c.Kind {
 	case "chain":
 		c.World = c10GenChain(t)
@@ -223,9 +230,59 @@ func c10Gen(t *rapid.T) c10Case {
 		for i := 0; i < n; i++ {
 			c.Calls = append(c.Calls, c10Call{Params: dicts[rapid.IntRange(0, len(dicts)-1).Draw(t, "dict")]})
 		}
+	case "surplus":
+		// more valid links than the threshold, one of them disagreeing: the verdict must not depend
+		// on which links the verifier happens to look at first
+		o := hx.DefaultWorldOpts()
+		o.MaxInspections, o.MaxThreshold, o.ExtraLinks, o.MaxSteps = 0, 2, true, 2
+		w := hx.GenWorld(t, o)
+		lay := w.Layout.Meta.Layout
+		si := rapid.IntRange(0, len(lay.Steps)-1).Draw(t, "surplusstep")
+		st := &lay.Steps[si]
+		// add functionaries until the step has threshold+1 or threshold+2 links
+		have := map[string]bool{}
+		var base *hx.MLink
+		for _, f := range w.Links {
+			if f.Meta.Link.Name == st.Name {
+				have[f.Sigs[0].Key] = true
+				base = f.Meta.Link
+			}
+		}
+		target := st.Threshold + rapid.IntRange(1, 2).Draw(t, "surplus")
+		for _, n := range hx.CheapPoolNames() {
+			if len(have) >= target {
+				break
+			}
+			if have[n] {
+				continue
+			}
+			have[n] = true
+			k := hx.PoolKey(n)
+			st.PubKeys = append(st.PubKeys, k.KeyID)
+			lay.Keys[k.KeyID] = hx.MKeyFromLib(k.Pub())
+			l := *base
+			w.Links = append(w.Links, hx.WMetaFile{Name: hx.LinkFileName(st.Name, k.KeyID), Wrapper: w.Layout.Wrapper, Meta: hx.MMeta{Link: &l}, Sigs: []hx.WSig{{Key: n}}})
+		}
+		// one link of that step disagrees in one product digest
+		idx := stepLinks(w, st.Name)
+		di := idx[rapid.IntRange(0, len(idx)-1).Draw(t, "dissenter")]
+		dl := *w.Links[di].Meta.Link
+		dl.Products = copyArtifacts(dl.Products)
+		for p := range dl.Products {
+			dl.Products[p]["sha256"] = "00" + dl.Products[p]["sha256"][2:]
+			break
+		}
+		w.Links[di].Meta = hx.MMeta{Link: &dl}
+		c.World = w
+		c.Repeats = hx.Pick(12, 32)
+		n := rapid.IntRange(1, 2).Draw(t, "ncalls")
+		for i := 0; i < n; i++ {
+			c.Calls = append(c.Calls, c10Call{Params: map[string]string{}})
+		}
 	case "mixed":
 		c.Mixed = c02Case{Threshold: rapid.IntRange(1, 3).Draw(t, "threshold"), SecondStep: rapid.Bool().Draw(t, "second"),
-			LayoutWrapper: rapid.SampledFrom([]string{"legacy", "dsse"}).Draw(t, "lw"), Intermediate: rapid.SampledFrom([]string{"layout", "caller"}).Draw(t, "inter"), Repeats: 1}
+			LayoutWrapper: rapid.SampledFrom([]string{"legacy", "dsse"}).Draw(t, "lw"), Intermediate: rapid.SampledFrom([]string{"layout", "caller"}).Draw(t, "inter"), Repeats: 1,
+			MultiValued: rapid.Bool().Draw(t, "multivalued"), ExplicitRoots: rapid.Bool().Draw(t, "explicitroots"), SecondFirst: rapid.Bool().Draw(t, "secondfirst")}
 		pool := []string{"honest-key:" + c02A1 + ":legacy", "honest-key:" + c02A2 + ":dsse", "honest-key:" + c02A3 + ":legacy", "honest-cert:leaf1", "honest-cert:leaf2",
 			"dup-cert:leaf1", "dup-key:" + c02A1, "bad-cert:leaf-expired", "unauthorised-key", "multisig:" + c02A2 + "+" + c02A1}
 		c.Mixed.Kinds = rapid.SliceOfNDistinct(rapid.SampledFrom(pool), 2, 5, rapid.ID[string]).Draw(t, "kinds")
